@@ -10,6 +10,13 @@ Open Scope N_scope.
 Theorem C03_code_or_is_model_or : forall a b, gen_or a b = ONorm (enc (or a b)).
 Proof. exact ErrorKind_or_tie. Qed.
 
+(* 1b. what enters as which class: a source's io::Error is Io, whatever a loader returns (any
+       concrete type, io::Error included) is Conversion; an ErrorKind leaves as the error it carries *)
+Theorem C03_code_error_conversions_keep_the_class :
+  enters_as "Io" ErrorKind_from_io = true /\ enters_as "Conversion" ErrorKind_from_boxed = true /\
+  leaves_unchanged Boxed_from_kind = true.
+Proof. exact error_conversions_keep_the_class. Qed.
+
 (* 2. Precedence: decoding error > other I/O error > not found > no default value. *)
 Theorem C03_or_prefers_the_higher_class : forall a b, class (or a b) = N.max (class a) (class b).
 Proof. exact or_class. Qed.
